@@ -552,7 +552,13 @@ func (in *Interp) conv(dst, src types.Type, x Value) Value {
 	case (dk == kInt || dk == kUint) && sk == kFloat:
 		f, ok := x.(float64)
 		if !ok {
-			in.unsupported("symbolic float->int")
+			if dw != 64 || dk != kInt {
+				in.unsupported("symbolic float->narrow/unsigned int")
+			}
+			// Go leaves out-of-range conversions implementation-defined; amd64 yields MinInt64.
+			t := floatTerm(x)
+			inRange := And(fpCmp("fp.geq", t, Const(64, math.Float64bits(-9223372036854775808.0))), fpCmp("fp.lt", t, Const(64, math.Float64bits(9223372036854775808.0))))
+			return simpInt(kInt, 64, Ite(inRange, fpToSInt(t), Const(64, 1<<63)))
 		}
 		if dk == kInt {
 			return normInt(dk, dw, uint64(int64(f)))
